@@ -29,9 +29,9 @@ fn plan(tier: Tier) -> Vec<Unit> {
             v
         }
         Tier::Thorough => {
-            let mut v = crate::util::split_budget("pairs", 2_000_000, 5_000);
-            v.extend(crate::util::split_budget("prims", 300_000, 2_000));
-            v.extend(crate::util::split_budget("zero", 20_000, 500));
+            let mut v = crate::util::split_budget("pairs", 8_000_000, 5_000);
+            v.extend(crate::util::split_budget("prims", 1_000_000, 2_000));
+            v.extend(crate::util::split_budget("zero", 60_000, 500));
             v
         }
         Tier::Miri => {
